@@ -1,6 +1,7 @@
 import RactorModel.Lemmas.OutPortV1
 import RactorModel.Lemmas.OutPortV2
 import RactorModel.Lemmas.OutPortV2Acct
+import RactorModel.Lemmas.OutPortBatch
 import RactorModel.Extracted
 
 /-!
@@ -105,6 +106,20 @@ theorem v2_batch_progress (st : V2 M O) (srv todo : List (Sub M O)) (seg left : 
     (∃ subs, st.task.1.pc = .top subs) ∨
       Prod.Lex (· < ·) (Prod.Lex (· < ·) (· < ·)) st.task.1.pc.measure st.pc.measure :=
   batch_progress st srv todo seg left rest hpc
+
+/-- (`dispatch_batch` in closed form) From the moment the port task has taken a batch out of
+the channel until it is back at the top of its loop, the one-send-per-step machine performs
+exactly `dispatchBatch` — the three nested loops of the source: segments between
+`SetSubscriber` entries, subscriber-major delivery, removal on the first failed send, the
+subscription applied at its position — as long as no subscriber dies meanwhile. (The E-PURE
+differential compares the real `dispatch_batch` with this function.) -/
+theorem v2_dispatch_batch_closed_form (st : V2 M O) (subs : List (Sub M O)) (batch : List (Cmd M O)) :
+    ∃ n, V2.steps n { st with pc := (nextSeg st.allowDup subs st.gone batch).1,
+                              gone := (nextSeg st.allowDup subs st.gone batch).2 } =
+      ({ st with pc := .top (dispatchBatch st.allowDup st.dead subs st.gone [] batch).1,
+                 gone := (dispatchBatch st.allowDup st.dead subs st.gone [] batch).2.1 },
+       (dispatchBatch st.allowDup st.dead subs st.gone [] batch).2.2) :=
+  task_runs_dispatchBatch st subs batch
 
 /-- (`send` never blocks) Publishing is an unconditional enqueue: whatever the state of the
 port task and of the subscribers, it only appends to the channel. -/
@@ -269,6 +284,7 @@ example : demo1.fwds.map (fun f => (f.got, f.mask, f.cursor)) =
 #print axioms C16.v2_not_lost
 #print axioms C16.v2_dead_dropped
 #print axioms C16.v2_batch_progress
+#print axioms C16.v2_dispatch_batch_closed_form
 #print axioms C16.v1_dead_dropped
 #print axioms C16.v2_publish_nonblocking
 #print axioms C16.v2_ok
